@@ -249,12 +249,17 @@ func setupFile(v6 bool, args ...string) (handler.Handler6, handler.Handler4, err
 					continue
 				}
 
+				// StaticRecords is replaced under recLock by any instance's watcher
+				recLock.RLock()
 				log.Infof("updated to %d leases from %s", len(StaticRecords), filename)
+				recLock.RUnlock()
 			}
 		}()
 	}
 
+	recLock.RLock()
 	log.Infof("loaded %d leases from %s", len(StaticRecords), filename)
+	recLock.RUnlock()
 	return Handler6, Handler4, nil
 }
 
